@@ -214,38 +214,37 @@ def run_rename_probe(prop, src_root="/repo"):
         shutil.rmtree(scratch, ignore_errors=True)
 
 
-def run_respelling_probes(prop, src_root="/repo"):
-    """Mechanical invariance probes: four behaviour-preserving rewrites of every function of the package (mirror comparisons,
-    `not (a in b)`, swapped if/else branches, else-nesting after an early exit; tools/mech_neutral.py); the check of `prop` must give
-    the verdict it gives on the tree as written."""
-    import ast as _ast
+def run_respelling_probes(prop, src_root="/repo", baseline_exit=0):
+    """Mechanical invariance probes: behaviour-preserving rewrites of every function of the package (tools/mech_neutral.py: mirrored
+    comparisons, `not (a in b)`, swapped if/else branches, else-nesting after an early exit, split / merged conjunctions,
+    comprehension -> loop, loop guards, De Morgan, swapped conditional expressions, named tests) - each alone, and two compositions
+    of them together with the renaming of every local (tools/stress.py); the check of `prop` must give the verdict it gives on
+    the tree as written."""
     import shutil
     import subprocess
     import tempfile
-    src = open(os.path.join(HERE_VERIF, "tools", "mech_neutral.py")).read().rsplit("\nmain()", 1)[0]
-    ns = {"__name__": "mech_neutral_tool", "__file__": os.path.join(HERE_VERIF, "tools", "mech_neutral.py")}
-    exec(compile(src, "mech_neutral.py", "exec"), ns)
-    out = {}
-    for mode, T in ns["MODES"].items():
+    from concurrent.futures import ThreadPoolExecutor
+    sys.path.insert(0, os.path.join(HERE_VERIF, "tools"))
+    import stress
+    modes = list(stress._load("mech_neutral.py")["MODES"])
+    specs = {m: m for m in modes}
+    specs["composition-1+rename"] = "flip-compare,not-in,swap-if-else,return-else,split-and,comp-to-loop,rename"
+    specs["composition-2+rename"] = "guard-continue,extract-test,ifexp-swap,de-morgan,flip-compare,swap-if-else,rename"
+
+    def one(item):
+        name, spec = item
         scratch = tempfile.mkdtemp(prefix="mechprobe_")
         try:
-            for d in ("ak", "bin", "tests"):
+            for d in ("ak", "bin"):
                 if os.path.isdir(os.path.join(src_root, d)):
-                    shutil.copytree(os.path.join(src_root, d), os.path.join(scratch, d))
-            T.n = 0
-            for root, _d, fs in os.walk(os.path.join(scratch, "ak")):
-                for fn in fs:
-                    if fn.endswith(".py"):
-                        p_ = os.path.join(root, fn)
-                        tree = _ast.parse(open(p_).read())
-                        tree = T().visit(tree)
-                        _ast.fix_missing_locations(tree)
-                        open(p_, "w").write(_ast.unparse(tree) + "\n")
+                    shutil.copytree(os.path.join(src_root, d), os.path.join(scratch, d), ignore=shutil.ignore_patterns("__pycache__"))
+            stress.stress_tree(scratch, spec)
             r = subprocess.run([os.path.join(HERE_VERIF, "check"), prop, "--tier", "quick", "--no-write", "--repo", scratch], capture_output=True, text=True, cwd=HERE_VERIF)
-            out[mode] = {"rewrites": T.n, "exit_on_rewritten_tree": r.returncode, "same_verdict_as_written": r.returncode == 0}
+            return name, {"rewrite": spec, "exit_on_rewritten_tree": r.returncode, "same_verdict_as_written": r.returncode == baseline_exit}
         finally:
             shutil.rmtree(scratch, ignore_errors=True)
-    return out
+    with ThreadPoolExecutor(max_workers=7) as ex:
+        return dict(ex.map(one, specs.items()))
 
 
 def main():
